@@ -529,7 +529,12 @@ func c14WatcherCancels(p *core.Prog, r *core.Report) {
 			}
 		}
 	})
+	seenCand := map[*ssa.Function]bool{}
 	for _, a := range cands {
+		if seenCand[a] {
+			continue
+		}
+		seenCand[a] = true
 		var sel *ssa.Select
 		core.EachInstr(a, func(i ssa.Instruction) {
 			if s, ok := i.(*ssa.Select); ok && s.Blocking {
